@@ -9,7 +9,10 @@ RULE = ("random histories of up to 30 ops on the real RollingFileAppender: trigg
         "FixedWindowRoller base in {0,1,7}, count in 0..4, plain and .gz}; ops: append (tagged records, multi-byte "
         "UTF-8 filler, 0-3 encoder chunks split at arbitrary bytes, sizes 0..12 and in ~8% of the cases around the "
         "1 KiB buffer: 1023/1024/1025/2100), restart (append mode; truncate mode in ~10% of the cases, then only the "
-        "model comparison applies), burst of 2-4 threads x 1-4 tagged records. After EVERY op the whole directory "
+        "model comparison applies), burst of 2-4 threads x 1-4 tagged records; in an eighth of the histories a third of "
+        "the appends carry a NESTED record: the encoder or the roller of the call appends it to a second rolling "
+        "appender (size trigger 10 bytes, window of 2) from inside the call - that appender must store and rotate as "
+        "always (stream and size oracles). After EVERY op the whole directory "
         "(names -> gunzipped bytes) and every policy consultation is compared with the model; independently the files "
         "read oldest archive..active must be a suffix of the acknowledged records cut at a record boundary with file "
         "boundaries on record boundaries, nothing missing while rotations <= count. Window patterns carry the index in the file name, "
@@ -218,6 +221,7 @@ def cases(rng, tier):
         pre = [0] if rng.chance(1, 2) else [1, rc.rec_bytes(rng, "pre", rng.choice([0, 1, 4, 9, 1024 if big else 6]))]
         trunc_ok = rng.chance(1, 10)
         a0 = 0 if (trunc_ok and rng.chance(1, 2)) else 1
+        nested = rng.chance(1, 8) and not big
         ops = []
         nops = rng.range(1, 7 if big else 30)
         rid = 0
@@ -244,7 +248,11 @@ def cases(rng, tier):
                     sz = rng.choice([0, 3, 600, 1023, 1024, 1025, 2100])
                 else:
                     sz = rng.choice([0, 1, 2, 3, 4, 5, 6, 8, 12, rng.below(13)])
-                ops.append(rc.op_append(rng, "%d" % rid, sz))
+                op = rc.op_append(rng, "%d" % rid, sz)
+                if nested and trig[0] != 3 and rng.chance(1, 3):
+                    # the encoder / the roller of this call appends a record to a second rolling appender
+                    op = [10, op[1], rc.rec_bytes(rng, "s%d" % rid, rng.range(4, 9)), rng.choice([1, 1, 2])]
+                ops.append(op)
                 rid += 1
         out.append([trig, roller, pre, a0, ops])
     # files rolled at EXACTLY a power-of-two size (and one byte around it), plain and gzip, archives next to the
